@@ -182,13 +182,21 @@ def check_deletions(prop, where, before, after, ledger, *, unsafe=False, user_re
             raise Violation(f"{prop}/deleted-path-never-declared-as-output",
                             f"{where}: {p} was deleted but no step ever declared it")
         if "vol" not in roles and not unsafe:
-            if ledger.last_written.get(p) != entry["sha"]:
+            # "modified after StepUp last recorded it": the reference is the digest StepUp last
+            # stored for the path (observed at every commit), which after a failed or deferred
+            # run can be content that no step wrote.
+            if ledger.recorded.get(p) != entry["sha"]:
                 raise Violation(
                     f"{prop}/deleted-modified-output",
                     f"{where}: regular output {p} was deleted although its content "
-                    f"({entry['sha'][:10]}) is not what a step last wrote "
-                    f"({str(ledger.last_written.get(p))[:10]})",
+                    f"({entry['sha'][:10]}) differs from what StepUp last recorded "
+                    f"({str(ledger.recorded.get(p))[:10]}; last written by a step: "
+                    f"{str(ledger.last_written.get(p))[:10]})",
                 )
+            if ledger.last_written.get(p) != entry["sha"]:
+                # Observation outside the statement (see DESIGN.md): StepUp recorded, and now
+                # deletes, content that the user put at the output path.
+                ledger.observations.append(("deleted-user-content-recorded-after-failed-run", p))
     gone = set(files) | set(dirs) | set(user_removed)
     for d in dirs:
         inside = [p for p in before if p.startswith(d) and p != d]
@@ -199,7 +207,7 @@ def check_deletions(prop, where, before, after, ledger, *, unsafe=False, user_re
     return files, dirs
 
 
-def stepup_should_have_cleaned(tables, ledger, dir_ledger, snapshot):
+def stepup_should_have_cleaned(tables, ledger, dir_ledger, snapshot, before=None):
     """C07 oracle: orphaned, unmodified former outputs that are still on disk or in the graph."""
     from stepup.core.enums import FileState, StepState
 
@@ -218,6 +226,23 @@ def stepup_should_have_cleaned(tables, ledger, dir_ledger, snapshot):
         src, snk = dep["source"], dep["sink"]
         if src in files and snk in steps and not nodes[snk]["detached"]:
             used_as_input.add(nodes[src]["label"])
+    # Detached nodes that are kept because an attached step (indirectly) holds them:
+    # X is held when it has a sink that is attached or held, or a product that is held.
+    held = set()
+    changed = True
+    while changed:
+        changed = False
+        for dep in tables["dependency"]:
+            src, snk = dep["source"], dep["sink"]
+            if nodes[src]["detached"] and src not in held and (
+                    not nodes[snk]["detached"] or snk in held):
+                held.add(src)
+                changed = True
+        for n in tables["node"]:
+            c = n["creator"]
+            if c is not None and nodes[c]["detached"] and c not in held and n["i"] in held:
+                held.add(c)
+                changed = True
     problems = []
     for path, written in ledger.last_written.items():
         if path in ledger.user_files:
@@ -234,8 +259,12 @@ def stepup_should_have_cleaned(tables, ledger, dir_ledger, snapshot):
         node = by_label.get(("file", path))
         orphan = producer is None
         if producer is None:
-            # no longer defined: gone from disk and from the graph
-            if on_disk:
+            # no longer defined: gone from disk and from the graph, unless an attached step
+            # holds the node, directly (the statement's exception) or through a chain of
+            # detached nodes (the documented fixed point of Trellis.delete_detached).
+            if node is not None and node["i"] in held:
+                pass
+            elif on_disk:
                 problems.append(("orphan-output-left-on-disk", path))
             elif node is not None:
                 problems.append(("orphan-output-node-left-in-graph", path))
@@ -246,9 +275,17 @@ def stepup_should_have_cleaned(tables, ledger, dir_ledger, snapshot):
             if unneeded_optional and on_disk and node is not None and \
                     files[node["i"]]["state"] in (FileState.PLANNED.value,
                                                   FileState.VOLATILE.value):
-                problems.append(("output-of-unneeded-optional-step-left-on-disk", path))
+                roles = ledger.ever_declared.get(path, set())
+                kind = "output-of-unneeded-optional-step-left-on-disk"
+                if {"out", "vol"} <= roles and files[node["i"]]["state"] == \
+                        FileState.PLANNED.value:
+                    # Root-cause refinement: the path was a volatile output when it was written
+                    # and is a regular (PLANNED, hash-less) output now.
+                    kind += "-after-volatile-to-regular-re-role"
+                problems.append((kind, path))
             orphan = unneeded_optional
-        if orphan and not on_disk:
+        removed_now = before is not None and path in before and not on_disk
+        if orphan and removed_now:
             d = os.path.dirname(path)
             while d:
                 dd = d + "/"
